@@ -6,9 +6,9 @@ use common::Rng;
 use rlib_treap::{TreapItem, TreapItemSized};
 use std::fmt::Debug;
 
-pub trait MonItem: TreapItem + TreapItemSized + Sized + Default + 'static {
-    type Elem: Clone + PartialEq + Debug;
-    type Mod: Clone + Debug;
+pub trait MonItem: TreapItem + TreapItemSized + Sized + Default + Send + 'static {
+    type Elem: Clone + PartialEq + Debug + Send;
+    type Mod: Clone + Debug + Send;
     type Agg: Clone + PartialEq + Debug;
     fn name() -> &'static str;
     fn make(id: u32, e: &Self::Elem) -> Self;
